@@ -31,6 +31,7 @@ type PipeGenOpts struct {
 	Reannounce  bool // later phases redefine templates
 	FillToMax   bool // some datagrams are padded to within 40 octets of max-udp-size
 	SmallUDP    bool // max-udp-size may be small
+	BadHeaders  bool // datagrams whose header must be rejected (wrong version, too short)
 }
 
 func pickSubset(r *rand.Rand, all []string) []string {
@@ -304,6 +305,44 @@ func genPipePlan(seed int64, o PipeGenOpts) *PipePlan {
 					}
 				}
 			}
+		}
+	}
+	if o.BadHeaders {
+		// rejected datagrams, interleaved with the rest: wrong version or
+		// shorter than the protocol header
+		n := len(p.Dels)
+		for i := 0; i < n && len(p.Dels) < maxDels+10; i++ {
+			if r.Intn(5) != 0 {
+				continue
+			}
+			src := p.Dels[i]
+			if src.DupOf > 0 {
+				continue
+			}
+			var enc []byte
+			switch {
+			case src.Abs != nil:
+				enc, _ = src.Abs.Encode(func(uint16) *model.Template { return nil })
+			case src.V5 != nil:
+				enc = src.V5.Encode()
+			case src.SF != nil:
+				enc = src.SF.Encode()
+			}
+			if len(enc) < 8 {
+				continue
+			}
+			raw := append([]byte(nil), enc...)
+			if r.Intn(2) == 0 {
+				// another version number
+				if src.SF != nil {
+					raw[3] = byte([]int{0, 1, 4, 6, 9, 10}[r.Intn(6)])
+				} else {
+					raw[1] = byte([]int{0, 1, 4, 6, 7, 8, 11}[r.Intn(7)])
+				}
+			} else {
+				raw = raw[:r.Intn(8)] // shorter than any header
+			}
+			add(Delivery{Phase: r.Intn(nPhases), AtUs: at(), Proto: src.Proto, Exporter: src.Exporter, Raw: raw, BadHeader: true})
 		}
 	}
 	if p.Cfg.CapMQ <= len(p.Dels) {
